@@ -1,4 +1,5 @@
 from vlib.core import Ob
+from props._compose import pick
 ID = "C11"
 LEVEL = "model_checking"
 FUNCTIONS = ["range_stack", "Range_Iter_Init", "Range_Iter_Next", "Range_Iter_Last", "Range_Iter_Prev", "Range_Len", "Range_Get", "iter_init", "iter_next", "iter_last", "iter_prev", "len", "get"]
@@ -11,6 +12,7 @@ OBLIGATIONS = [
     Ob("range.len64", "C11/range_len64.c", unwind=5, unwindset=US, checks=["overflow", "div0"], tiers=("thorough",), timeout=3600,
        desc="Range_Len vs closed form over 62-bit operands"),
 ]
+OBLIGATIONS += pick("C02", r"table\.iter\.") + pick("C03", r"tree\.iter\.") + pick("C04", r"array\.iter\.")
 LEVEL_TEXT = ("Bounded model checking of the iteration protocol: Range through the full real dispatch for all start/stop in [-B,B] and step in [-3,3]; "
               "container cursors (Array, Table, Tree) from arbitrary valid states in the C04/C02/C03 harnesses, whose obligations this check also runs.")
 LEVEL_NOTE = "Trusted: cbmc; reference sequences written from the definitions in the property text. Slice/Zip/Filter/Map: see known findings and DESIGN.md."
